@@ -825,6 +825,7 @@ func sameObs(a, b []string) bool {
 
 func buildEvidence(prop, tier string, seed int, spec *CheckSpec, jobs []Job, results []JobResult, tracesOK, tracesTried, nviol int, inconc, known []string, wall float64, notes []string) map[string]interface{} {
 	states, trans, aq, ap, ac, asr, forks, merges, panics, dead, af := 0, 0, 0, 0, 0, 0, 0, 0, 0, 0, 0
+	ag, vq, arf := 0, 0, 0
 	queries, qsat, qunsat, qunk, esc, cross := 0, 0, 0, 0, 0, 0
 	solverSec, escSec := 0.0, 0.0
 	funcs := map[string]bool{}
@@ -838,6 +839,9 @@ func buildEvidence(prop, tier string, seed int, spec *CheckSpec, jobs []Job, res
 		aq += r.AssertQueries
 		ap += r.AssertsProved
 		af += r.AssertsByFacts
+		ag += r.AssertsByGlobal
+		vq += r.ValidityQueries
+		arf += r.AssertsRefuted
 		ac += r.AssertsConcrete
 		asr += r.Asserts
 		forks += r.Forks
@@ -910,6 +914,10 @@ func buildEvidence(prop, tier string, seed int, spec *CheckSpec, jobs []Job, res
 		"assertion_queries":             aq,
 		"assertions_proved":             ap,
 		"assertions_implied_by_earlier_unsat_branch_queries": af,
+		"assertions_discharged_by_validity_under_assumptions": ag,
+		"validity_queries":              vq,
+		"assertions_refuted_sat":        arf,
+		"assertion_accounting":          "assertions_reached = concretely_true + implied_by_branch_queries + discharged_by_validity + assertion_queries (+ repeats of an already refuted label); assertion_queries = proved (unsat) + refuted (sat) + inconclusive",
 		"forks":                         forks,
 		"merges":                        merges,
 		"panic_paths":                   panics,
